@@ -83,3 +83,53 @@ var _ *openfgav1.Userset
 //@   loop 1.1 invariant forall k string :: $visited[k] ==> edge.weights[k] <= weights[k]
 //@   loop 1.1 invariant forall k string :: has(weights, k) ==> ((exists i int :: 0 <= i && i < $i_1 && has(edges[i].weights, k) && edges[i].weights[k] == weights[k]) || ($visited[k] && edge.weights[k] == weights[k]))
 //@   loop 1.1 invariant forall k string :: has(weights, k) ==> 0 <= weights[k] && weights[k] <= Infinite
+
+// Exclusion (A but not B): the edges before the last are the base operand, the last edge is the subtract operand.
+// Keys come from the base only; a value is the maximum over all edges that carry the key.
+//@ func (*WeightedAuthorizationModelGraph).calculateNodeWeightWithMixedStrategy
+//@   props C04 C05 C06
+//@   opaque_strings
+//@   requires wg != nil && wg.nodes[nodeID] != nil && wfEdges(wg.edges[nodeID])
+//@   requires forall i int, k string :: 0 <= i && i < len(wg.edges[nodeID]) && has(wg.edges[nodeID][i].weights, k) ==> 0 <= wg.edges[nodeID][i].weights[k] && wg.edges[nodeID][i].weights[k] <= Infinite
+//@   ensures rejects_iff_no_edge: (err != nil) <==> (len(old(wg.edges[nodeID])) == 0 && !terminalKind(old(wg.nodes[nodeID])))
+//@   ensures error_is_invalid_model: err != nil ==> wraps(err, ErrInvalidModel)
+//@   ensures keys_are_base_keys: err == nil ==> (forall k string :: has(old(wg.nodes[nodeID]).weights, k)
+//@                              <==> (exists i int :: 0 <= i && i < len(old(wg.edges[nodeID])) - 1 && has(old(old(wg.edges[nodeID])[i].weights), k)))
+//@   ensures value_is_upper_bound: err == nil ==> (forall k string, i int :: 0 <= i && i < len(old(wg.edges[nodeID])) && has(old(old(wg.edges[nodeID])[i].weights), k)
+//@                              && has(old(wg.nodes[nodeID]).weights, k) ==> old(old(wg.edges[nodeID])[i].weights[k]) <= old(wg.nodes[nodeID]).weights[k])
+//@   ensures value_is_attained: err == nil ==> (forall k string :: has(old(wg.nodes[nodeID]).weights, k)
+//@                              ==> (exists i int :: 0 <= i && i < len(old(wg.edges[nodeID])) && has(old(old(wg.edges[nodeID])[i].weights), k)
+//@                                     && old(old(wg.edges[nodeID])[i].weights[k]) == old(wg.nodes[nodeID]).weights[k]))
+//@   ensures frame_nodes: forall n *WeightedAuthorizationModelNode :: n != old(wg.nodes[nodeID]) ==> n.weights == old(n.weights)
+//@   loop 1 invariant fresh(weights) && weights != nil
+//@   loop 1 invariant forall k string :: has(weights, k) <==> (exists i int :: 0 <= i && i < $i && i < len(edges) - 1 && has(edges[i].weights, k))
+//@   loop 1 invariant forall k string, i int :: 0 <= i && i < $i && has(edges[i].weights, k) && has(weights, k) ==> edges[i].weights[k] <= weights[k]
+//@   loop 1 invariant forall k string :: has(weights, k) ==> (exists i int :: 0 <= i && i < $i && has(edges[i].weights, k) && edges[i].weights[k] == weights[k])
+//@   loop 1 invariant forall k string :: has(weights, k) ==> 0 <= weights[k] && weights[k] <= Infinite
+//@   loop 1.1 invariant fresh(weights) && weights != nil
+//@   loop 1.1 invariant forall k string :: has(weights, k) <==> ((exists i int :: 0 <= i && i < $i_1 && i < len(edges) - 1 && has(edges[i].weights, k)) || ($visited[k] && $i_1 < len(edges) - 1))
+//@   loop 1.1 invariant forall k string :: $visited[k] ==> has(edge.weights, k)
+//@   loop 1.1 invariant forall k string, i int :: 0 <= i && i < $i_1 && has(edges[i].weights, k) && has(weights, k) ==> edges[i].weights[k] <= weights[k]
+//@   loop 1.1 invariant forall k string :: $visited[k] && has(weights, k) ==> edge.weights[k] <= weights[k]
+//@   loop 1.1 invariant forall k string :: has(weights, k) ==> ((exists i int :: 0 <= i && i < $i_1 && has(edges[i].weights, k) && edges[i].weights[k] == weights[k]) || ($visited[k] && edge.weights[k] == weights[k]))
+//@   loop 1.1 invariant forall k string :: has(weights, k) ==> 0 <= weights[k] && weights[k] <= Infinite
+
+// Intersection: a type is kept only if every operand carries it (here: every edge, see DESIGN.md C04 on operands);
+// the model is rejected exactly when no type is common to all of them.
+//@ func (*WeightedAuthorizationModelGraph).calculateNodeWeightWithEnforceTypeStrategy
+//@   props C04 C05 C06
+//@   opaque_strings
+//@   requires wg != nil && wg.nodes[nodeID] != nil && wfEdges(wg.edges[nodeID])
+//@   requires forall i int, k string :: 0 <= i && i < len(wg.edges[nodeID]) && has(wg.edges[nodeID][i].weights, k) ==> 0 <= wg.edges[nodeID][i].weights[k] && wg.edges[nodeID][i].weights[k] <= Infinite
+//@   ensures error_is_invalid_model: err != nil ==> wraps(err, ErrInvalidModel)
+//@   ensures rejects_iff_no_common_type: (err != nil) <==> ((len(old(wg.edges[nodeID])) == 0 && !terminalKind(old(wg.nodes[nodeID])))
+//@          || !(exists k string :: forall i int :: 0 <= i && i < len(old(wg.edges[nodeID])) ==> has(old(old(wg.edges[nodeID])[i].weights), k)))
+//@   ensures keys_are_intersection: err == nil ==> (forall k string :: has(old(wg.nodes[nodeID]).weights, k)
+//@                              <==> (forall i int :: 0 <= i && i < len(old(wg.edges[nodeID])) ==> has(old(old(wg.edges[nodeID])[i].weights), k)))
+//@   ensures value_is_upper_bound: err == nil ==> (forall k string, i int :: 0 <= i && i < len(old(wg.edges[nodeID])) && has(old(wg.nodes[nodeID]).weights, k)
+//@                              ==> old(old(wg.edges[nodeID])[i].weights[k]) <= old(wg.nodes[nodeID]).weights[k])
+//@   ensures frame_nodes: forall n *WeightedAuthorizationModelNode :: n != old(wg.nodes[nodeID]) ==> n.weights == old(n.weights)
+//@   loop 1 invariant fresh(weights) && weights != nil
+//@   loop 1 invariant forall k string :: has(weights, k) <==> ($i > 0 && (forall i int :: 0 <= i && i < $i ==> has(edges[i].weights, k)))
+//@   loop 1 invariant forall k string, i int :: 0 <= i && i < $i && has(weights, k) ==> edges[i].weights[k] <= weights[k]
+//@   loop 1 invariant forall k string :: has(weights, k) ==> 0 <= weights[k] && weights[k] <= Infinite
